@@ -464,7 +464,11 @@ def map_error_to_obligation(err, obs, fns):
     else:
         cand_lines = err["primary_lines"] + [(a, b) for a, b, _ in err["other_lines"]]
     want_kind = None
-    if "postcondition" in msg:
+    if "loop invariant not satisfied" in msg:
+        # failed at a `break`: the labelled span is the loop's ensures / invariant clause
+        cand_lines = [(a, b) for a, b, lab in err["other_lines"] if lab and "invariant" in lab] + cand_lines
+        want_kind = ("loop_ensures", "inv_step", "inv_init")
+    elif "postcondition" in msg:
         want_kind = ("ensures", "loop_ensures")
     elif "invariant not satisfied before" in msg:
         want_kind = ("inv_init",)
